@@ -24,7 +24,8 @@ CONSTANTS N,        \* valid clusters are 2..N+1
           Names, MaxLen, MaxOpen,
           BugF1, BugF2, BugF3, BugF9, BugF18,  \* the repaired defects, switchable
           CntChoices, HintChoices,             \* FAT32: what the information sector may hold at the first mount (-1 / 0 = unknown; exact, stale, out of range)
-          BugF15                               \* truncation counts one freed cluster too few
+          BugF15,                              \* truncation counts one freed cluster too few
+          InfoModel                            \* FALSE: the information sector is left out (no record is written, no re-mount): the plain configurations
 
 End == N + 2                                   \* first invalid cluster number
 L == ((End + EPS - 1) \div EPS) * EPS          \* FAT entries that exist on the medium (incl. slack)
@@ -168,7 +169,7 @@ SatIn(c, steps) == IF steps = <<>> \/ c = -1 THEN FALSE
 StartC(ws, h, of, label, steps, ms) ==
   LET c2 == CountAfter(cnt, steps)
       a2 == [acct EXCEPT !.sat = @ \/ SatIn(cnt, steps), !.missed = @ \/ ms,
-                         !.wr = IF steps = <<>> /\ h = hint THEN @ ELSE FALSE]
+                         !.wr = IF ~InfoModel \/ (steps = <<>> /\ h = hint) THEN @ ELSE FALSE]
   IN /\ plan' = Expand(ws) /\ after' = [hint |-> h, ofiles |-> of, fl |-> <<>>, cnt |-> c2, acct |-> a2] /\ lastOp' = label
      /\ IF Expand(ws) = <<>> THEN hint' = h /\ ofiles' = of /\ cnt' = c2 /\ acct' = a2 ELSE UNCHANGED <<hint, ofiles, cnt, acct>>
      /\ UNCHANGED <<fat, fat2, blk, crashed, info>>
@@ -178,7 +179,7 @@ WithFlushed(fl) == IF crashed THEN flushed ELSE [x \in DOMAIN flushed \cup {fl[1
 
 IsOpen(n) == \E i \in 1..Len(ofiles) : ofiles[i].n = n
 \* update_info_sector (volume.rs 175-205): nothing on FAT16, nothing when neither value is known; a known value overwrites the stored one
-InfoWrite == IF ROOT16 \/ (cnt = -1 /\ hint = 0) THEN <<>> ELSE <<[t |-> "info", cnt |-> cnt, hint |-> hint]>>
+InfoWrite == IF ROOT16 \/ ~InfoModel \/ (cnt = -1 /\ hint = 0) THEN <<>> ELSE <<[t |-> "info", cnt |-> cnt, hint |-> hint]>>
 Unflush(n) == [x \in DOMAIN flushed \ {n} |-> flushed[x]]
 
 \* open_file_in_dir, create (volume_mgr.rs 536-571)
@@ -286,12 +287,13 @@ Step ==
 \* power loss: the medium stays, memory is gone
 Crash ==
   /\ plan' = <<>> /\ ofiles' = <<>> /\ crashed' = TRUE /\ lastOp' = <<"crash">>
-  /\ hint' = info.hint /\ cnt' = info.cnt /\ acct' = [c0 |-> info.cnt, f0 |-> FreeNow, sat |-> FALSE, missed |-> acct.missed, wr |-> TRUE]
+  /\ hint' = info.hint /\ cnt' = info.cnt
+  /\ acct' = IF InfoModel THEN [c0 |-> info.cnt, f0 |-> FreeNow, sat |-> FALSE, missed |-> acct.missed, wr |-> TRUE] ELSE acct
   /\ UNCHANGED <<fat, fat2, blk, after, flushed, info>>
 
 \* close_volume (writes the information sector, volume_mgr.rs 336-362) and open_volume again: memory is rebuilt from the medium
 Remount ==
-  /\ Idle /\ ofiles = <<>> /\ ~ROOT16
+  /\ Idle /\ ofiles = <<>> /\ ~ROOT16 /\ InfoModel
   /\ LET i2 == IF InfoWrite = <<>> THEN info ELSE [cnt |-> IF cnt # -1 THEN cnt ELSE info.cnt, hint |-> IF hint # 0 THEN hint ELSE info.hint] IN
      /\ info' = i2 /\ cnt' = i2.cnt /\ hint' = i2.hint
      /\ acct' = [c0 |-> i2.cnt, f0 |-> FreeNow, sat |-> FALSE, missed |-> acct.missed, wr |-> TRUE]
